@@ -91,14 +91,15 @@ theorem c10_rules_current : c10RulesOf c10DiffTable = c10ModelRules := by
     funext f g df dg; exact c10_pow_current f g df dg
   have h4 : (c10RulesOf c10DiffTable).ifErr = c10ModelRules.ifErr := by
     funext cfg; cases cfg <;> rfl
+  have h8 : (c10RulesOf c10DiffTable).cseZero = c10ModelRules.cseZero := rfl
   have h5 : (c10RulesOf c10DiffTable).constD = c10ModelRules.constD := rfl
   have h6 : (c10RulesOf c10DiffTable).varHit = c10ModelRules.varHit := rfl
   have h7 : (c10RulesOf c10DiffTable).varMiss = c10ModelRules.varMiss := rfl
   cases hR : c10RulesOf c10DiffTable
   cases hM : c10ModelRules
-  rw [hR, hM] at h1 h2 h3 h4 h5 h6 h7
-  simp only at h1 h2 h3 h4 h5 h6 h7
-  subst h1 h2 h3 h4 h5 h6 h7
+  rw [hR, hM] at h1 h2 h3 h4 h5 h6 h7 h8
+  simp only at h1 h2 h3 h4 h5 h6 h7 h8
+  subst h1 h2 h3 h4 h5 h6 h7 h8
   rfl
 
 /-- the table-driven differentiator IS the hand-written one -/
